@@ -27,5 +27,6 @@ RULE = (
     "traces over one ConsumerGroup member (1-2 topics x 1-3 partitions, session 6/30 s, heartbeat 1/2 s, backoffs 0.3-1 / 0.1 / 1.5-10 s, auto-commit every n / ms) on a 1-2 broker simulated cluster whose group coordinator is a model of Kafka's Empty/PreparingRebalance/AwaitingSync/Stable machine with session and rebalance timers; 0-3 ghost members join, leave, die (session expiry) or stall their rejoin, a ghost leader deals assignments with a drawn rotation so partitions move; steps: start, deliver/hold a reply, fire a timer, wait, append, complete an async processor call, error codes on join/sync/heartbeat/commit/lookup/offset-fetch/fetch, held replies, connection drops, brokers down/up, coordinator and leader moves, stop. oracle: (never idle) after every event, a started, unstopped member whose start() Deferred has not fired has something outstanding - a pending simulated event, a request or connection attempt, or a delayed call - otherwise it is wedged; (backoff) after a group request fails with a Kafka error the public join_and_sync() runs no later than the documented backoff for that error class (retry / fatal; an earlier longer backoff still running is honoured); (bounded liveness) after all faults are lifted the member is, within 3 x (join timeout + fatal backoff + session timeout) + 20 virtual seconds, a stable member of the model's current generation with an acknowledged heartbeat in it, and a message then appended to each of its partitions reaches the processor; (non-Kafka error) a ValueError raised by the processor while the member is stable makes the start() Deferred fail with that error. non-trivial = stable again after faults at two or more protocol steps, a measured rejoin after a retry-class or fatal-class failure, or a surfaced non-Kafka error; distinct = distinct trace."
     " Also: a silent JoinGroup/SyncGroup/Heartbeat must be noticed (time out by write time + timeout / 35 s), and clause (3) also applies to a processor failure while consumers are being shut down for a rejoin as long as that consumer's start Deferred has not fired."
     ' A topic may be in a transient metadata error state (op mderr, script lookupfault) while the member - as leader - looks up the partitions of every subscribed topic between JoinGroup and SyncGroup; the error is lifted with the other faults before the liveness verdict.'
+    " The Deferred of start() failing with a KafkaError although stop() was not called and the processor did not fail is a violation (every Kafka error leads to a rejoin); scripts 'lookupfault' and 'overlap' are part of the mix."
 )
 ASSUMPTIONS = ['vlib/simgroup.py models a 0.10-era GroupCoordinator (JoinGroup/SyncGroup/Heartbeat/LeaveGroup v0, OffsetCommit v1 generation check); it is self-checked against a ghost-only rebalance script before use', 'group call outcomes are observed by a pass-through callback on the Deferred KafkaClient._send_request_to_coordinator / send_offset_commit_request return to the coordinator code; scheduled rejoins by wrapping the public join_and_sync() on the instance', 'what evicted consumers do between the evicting answer and the next JoinGroup is reported as a statistic only: the property demands they are stopped before any rejoin']
